@@ -423,6 +423,22 @@ func init() {
 		}
 		return b.String(), nil
 	})
+	// concatWithSeparator(sep, s1, s2, ...): strings only (ClickHouse: "Concatenates the given strings with a separator")
+	regNull("concatWithSeparator", 1, -1, func(_ *env, a []any) (any, error) {
+		sep, err := strArg("concatWithSeparator", a[0])
+		if err != nil {
+			return nil, err
+		}
+		parts := make([]string, 0, len(a)-1)
+		for _, v := range a[1:] {
+			s, err := strArg("concatWithSeparator", v)
+			if err != nil {
+				return nil, err
+			}
+			parts = append(parts, s)
+		}
+		return strings.Join(parts, sep), nil
+	})
 	reg("substring", 2, 3, func(_ *env, a []any) (any, error) {
 		s, err := strArg("substring", a[0])
 		if err != nil {
